@@ -5,6 +5,7 @@ Output line: the model's canonical observable for that op.
 Core-only so that it links as an executable.
 -/
 import Shutter.Drive.App
+import Shutter.Spec.SaveFile
 
 open Shutter
 
@@ -16,6 +17,7 @@ def dispatch (st : DState) (line : String) : DState × String :=
   | "APP" :: rest =>
     let (a, out) := Drive.App.step st.app rest
     ({ st with app := a }, out)
+  | "SAVE" :: rest => (st, SaveFile.driverStep rest)
   | _ => (st, "bad-model")
 
 partial def loop (h : IO.FS.Stream) (out : IO.FS.Stream) (st : DState) : IO Unit := do
